@@ -4,6 +4,7 @@
 package verif_c06_test
 
 import (
+	"sync/atomic"
 	"bytes"
 	"context"
 	"errors"
@@ -418,7 +419,7 @@ func newSim(sc Script, rep *kit.Report, mode string) (*sim, error) {
 	// and the earlier members then learn about it (what membership gossip would do). Engines
 	// are empty, so start-up recovery has nothing to move.
 	for i, n := range s.nodes {
-		n.engine = memkv.New()
+		n.engine = &refuseCommitDB{DB: memkv.New()}
 		st := clusterstore.New(s.ctx)
 		for _, o := range s.nodes[:i] {
 			st.SetNode(s.ctx, node.Node{Key: o.key, Address: o.addr})
@@ -1155,7 +1156,32 @@ func (s *sim) gossip(a, b *nodeSim, op Op, what string) error {
 
 // ---------------------------------------------------------------- local writes
 
-func (s *sim) localTx(n *nodeSim, subs []SubOp, step int) error {
+// refuseCommitDB wraps a node's engine: while armed, the Commit of a transaction opened on
+// it returns an error and persists nothing (a storage failure at the leaseholder).
+type refuseCommitDB struct {
+	xkv.DB
+	armed atomic.Bool
+	hits  atomic.Int64
+}
+
+var errCommitRefused = errors.New("verif: commit refused by the storage engine")
+
+func (d *refuseCommitDB) OpenTx() xkv.Tx { return &refuseCommitTx{Tx: d.DB.OpenTx(), db: d} }
+
+type refuseCommitTx struct {
+	xkv.Tx
+	db *refuseCommitDB
+}
+
+func (t *refuseCommitTx) Commit(ctx context.Context, opts ...any) error {
+	if t.db.armed.Load() {
+		t.db.hits.Add(1)
+		return errCommitRefused
+	}
+	return t.Tx.Commit(ctx, opts...)
+}
+
+func (s *sim) localTx(n *nodeSim, subs []SubOp, step int, refuse bool) error {
 	if !n.up {
 		return nil
 	}
@@ -1203,6 +1229,66 @@ func (s *sim) localTx(n *nodeSim, subs []SubOp, step int) error {
 			return nil
 		}
 		wants = append(wants, w)
+	}
+	if refuse {
+		// only writes the node leads itself: the storage failure is injected at this node
+		for _, w := range wants {
+			if w.at != n {
+				refuse = false
+			}
+		}
+	}
+	rdb, _ := n.engine.(*refuseCommitDB)
+	if refuse && rdb != nil && len(wants) > 0 {
+		before := map[string]stored{}
+		for _, w := range wants {
+			st, err := readStored(s.ctx, n.engine, w.key)
+			if err != nil {
+				_ = tx.Close()
+				return err
+			}
+			before[w.key] = st
+		}
+		h0 := rdb.hits.Load()
+		rdb.armed.Store(true)
+		cerr := tx.Commit(s.ctx)
+		rdb.armed.Store(false)
+		_ = tx.Close()
+		s.event("step %d: tx on %s [%s] with the storage engine refusing commits -> %v", step, n.label(), strings.Join(desc, ", "), cerr)
+		if rdb.hits.Load() == h0 {
+			s.rep.Class("refused-commit-not-reached")
+			return s.violate("harness-refused-commit-not-reached", "step %d: the local write never committed to the engine while it was armed (err %v)", step, cerr)
+		}
+		s.rep.Class("tx-commit-refused-by-engine")
+		if cerr == nil {
+			return s.violate("refused-commit-reported-success", "step %d: the storage engine of %s refused the commit of [%s] but the transaction reported success", step, n.label(), strings.Join(desc, ", "))
+		}
+		if err := s.barrier(n); err != nil {
+			return err
+		}
+		for _, w := range wants {
+			st, err := readStored(s.ctx, n.engine, w.key)
+			if err != nil {
+				return err
+			}
+			if st != before[w.key] {
+				return s.violate("refused-commit-changed-state", "step %d: after the refused commit %s holds %s for %s (before: %s)", step, n.label(), st, w.key, before[w.key])
+			}
+		}
+		// nothing was stored, so nothing may be notified or gossiped: subscribers are judged
+		// against unchanged expectations (phantom-notification), and an operation that turns
+		// up in the infected set is a write that does not exist in the leaseholder's store
+		inf, _, err := s.probe(n)
+		if err != nil {
+			return err
+		}
+		for _, w := range wants {
+			if o, ok := inf[w.key]; ok && o.ID.LH == int(n.key) && o.ID.Ver > n.issued {
+				return s.violate("refused-commit-gossiped", "step %d: %s gossips %s although the commit that would have stored it was refused", step, n.label(), o)
+			}
+		}
+		s.collectFresh()
+		return nil
 	}
 	s.mu.Lock()
 	s.curFwd = nil
